@@ -538,11 +538,26 @@ class C18Executor(Executor):
         self.unshaped_keys = tuple(unshaped_keys)
 
     def apply_contract(self, st, c, args, kwargs, node):
+        if c.target.endswith("::SharePointRestClient.list_files_filtered") and len(args) >= 2 and isinstance(args[1], VRef) \
+                and st.obj(args[1].ref).kind == "obj" and st.obj(args[1].ref).cls == "FileFilter":
+            return self.delegate_filtered(st, c, args, kwargs, node)
         self.applying = getattr(self, "applying", 0) + 1
         try:
             return super().apply_contract(st, c, args, kwargs, node)
         finally:
             self.applying -= 1
+
+    def delegate_filtered(self, st, c, args, kwargs, node):
+        """A convenience wrapper hands a FileFilter it built itself to list_files_filtered: the delegation is recorded
+        (filter fields as they are at the call, drive id) and the delegate's yielded sequence is an opaque value D;
+        list_files_filtered's own contract says what D is for that filter."""
+        fobj = st.obj(args[1].ref)
+        for k in FAMILY:
+            s2 = st.fork()
+            self.raise_in(s2, self.mk_exc(k))
+        d = z3.Const(fresh_name("delegated"), SQF)
+        st.ghost["delegations"] = st.ghost.get("delegations", ()) + ((dict(fobj.data), kwargs.get("drive_id", args[2] if len(args) > 2 else NONE), d, st.heap),)
+        return [(st, seq_value(d, "FileMeta"))]
 
     def call(self, st, f, args, kwargs, node):
         if isinstance(f, VExt) and f.sort == "Transport":
@@ -1929,6 +1944,52 @@ def part_c(reg):
         loops={0: LoopSpec(inv=lff_inv, label="targets")},
         modifies=("self",),
     ))
+
+    # -- list_files_modified_since / list_files_created_since: thin wrappers ---------------------------------------------
+    def since_contract(meth, date_field):
+        others = [f for f in ("created_after", "created_before", "modified_after", "modified_before") if f != date_field]
+
+        def same_list(c, given, passed, heap):
+            """`given or []`: the caller's list when it is a non-empty list, else an empty list."""
+            if isinstance(passed, VSeq):
+                return z3.BoolVal(passed is given)
+            if isinstance(passed, VRef) and passed.ref in heap and heap[passed.ref].kind == "list" and heap[passed.ref].data == []:
+                return z3.BoolVal(True) if isinstance(given, VNoneT) else (given.length == 0 if isinstance(given, VSeq) else z3.BoolVal(False))
+            return z3.BoolVal(False)
+
+        def delegated(c):
+            ds = c.st.ghost.get("delegations", ())
+            if len(ds) != 1:
+                return z3.BoolVal(False)
+            flt, drive, d, heap = ds[0]
+            ok = [z3.BoolVal(flt[date_field] is c.args["since"])]
+            ok += [z3.BoolVal(isinstance(flt[f], VNoneT)) for f in others]
+            ok.append(same_list(c, c.args["folder_paths"], flt["folder_paths"], heap))
+            ok.append(same_list(c, c.args["extensions"], flt["extensions"], heap))
+            ok.append(same_list(c, NONE, flt["path_patterns"], heap))
+            ok.append(z3.BoolVal(drive is c.args["drive_id"] or (isinstance(drive, VNoneT) and isinstance(c.args["drive_id"], VNoneT))))
+            return z3.And(ok)
+
+        def yields_delegate(c):
+            ds = c.st.ghost.get("delegations", ())
+            if len(ds) != 1 or c.st.ghost.get("Y_unknown"):
+                return z3.BoolVal(False)
+            return ghost_y(c.st) == ds[0][2]
+
+        opt_list = lambda nm: with_default(p_opt(p_seq_str(nm)), NONE)  # noqa
+        return FnContract(
+            target=f"{CLIENT}::SharePointRestClient.{meth}",
+            params=[("self", CL), ("since", p_dt()), ("folder_paths", opt_list(f"{meth}.folder_paths")),
+                    ("extensions", opt_list(f"{meth}.extensions")), ("drive_id", P_DRIVE)],
+            generator=True,
+            ensures=[(f"delegates-once-with-a-filter-that-has-only-{date_field}=since-and-the-given-folders-and-extensions", body_only(delegated)),
+                     ("yields-exactly-what-list_files_filtered-yields-for-that-filter", body_only(yields_delegate))],
+            raises=[Raises(k, when=lambda c: z3.BoolVal(True)) for k in FAMILY],
+            modifies=("self",),
+            note="convenience wrapper: list_files_filtered(FileFilter(<date_field>=since, folder_paths, extensions), drive_id)",
+        )
+    out.append(since_contract("list_files_modified_since", "modified_after"))
+    out.append(since_contract("list_files_created_since", "created_after"))
 
     # -- list_all_files -------------------------------------------------------------------------------------------------
     def laf_walk(c_or_lc_self_data):
